@@ -1050,8 +1050,7 @@ class Unit:
 
         prefix = json_object["prefix"] or Prefix(0, 0)
         factors = dict(json_object["factors"])
-        dimension = json_object["dimension"]
-        return Unit(prefix, factors, dimension)
+        return Unit(prefix, factors, Unit._dimension_of(factors))
 
     # Pydantic support
 
